@@ -19,7 +19,7 @@ ASSUMPTIONS = ["sets / frozensets and default-repr objects are not generated (th
                'hashmap(algorithm=None) (python hash) is not session-stable by the statement and is excluded',
                'equal strings are interned in every interpreter so that pickle memoisation sees the same object graph everywhere']
 
-N = {'quick': 400, 'thorough': 16000}       # batches of BATCH calls per stratum
+N = {'quick': 400, 'thorough': 8000}       # batches of BATCH calls per stratum
 SHARDS = {'quick': 4, 'thorough': 16}
 BATCH = 25
 SEEDS = ['0', '1', '4242']
